@@ -53,7 +53,7 @@ def run(P, rep, tier):
                        '(tokens reached through a pointer kept in a table -- macro bodies -- are not judged). '
                        'R18.2 also decides that a pass over the contents which hands a computed value to a callee that writes into the buffer (convert_universal_chars -> encode_utf8) has excluded the new-line on that path '
                        '(bytes such a pass stores itself are not judged); R18.6 that the #line delta is not, on every path, N minus the line of a token of the directive '
-                       '(a directive ends where its new-line is; that a scan behind the last token counts exactly the new-lines of the comments is not decided). '
+                       '(a directive ends where its new-line is), and that the line it takes for the end of the directive is the line holding the new-line of the directive: read_line_marker is run on concrete token lists over concrete file contents (no comment, a // comment, a // comment holding /*, block comments with and without new-lines, several of them, /*/ and **/, a string operand holding /*, the file ending inside the comment; `#line N` and `# N`), the tokens and the expected end line coming from a reference phase-3 scanner (C11 5.1.1.2), and the delta it stores must be the delta of a comment-free directive on that line (copy_line and the expansion pass are replaced by their specification; tails beyond these shapes are not decided). '
                        'Not decided: positions for all inputs end to end.')
     rep.assumptions += ['the output cursor of an in-place filter never overtakes its input cursor (reads see unmodified input)',
                         'no token starts at a newline character', 'calloc succeeds',
